@@ -43,7 +43,7 @@ Proof.
   unfold fact_ok in Hf.
   destruct (lookup pol (a_type f) (a_field f)) as [pr|]; [|discriminate].
   unfold access_ok in Hf. rewrite Hfresh in Hf.
-  destruct pr as [l|l| | |c| | |l]; try exact I.
+  destruct pr as [l|l| | |c| | |l| ]; try exact I.
   - (* GuardedBy *)
     destruct (a_kind f); try discriminate;
       apply has_lock_In in Hf; exact (Hlocks _ _ Hf).
@@ -56,6 +56,9 @@ Proof.
     + left. apply has_lock_In in Hf. exact (Hlocks _ _ Hf).
     + left. apply has_lock_In in Hf. exact (Hlocks _ _ Hf).
   - (* AtomicOnly *)
+    destruct (a_kind f) eqn:Ek; try discriminate.
+    destruct a; try discriminate; reflexivity.
+  - (* ImmutableAfterPublish: the cell itself is only accessed atomically *)
     destruct (a_kind f) eqn:Ek; try discriminate.
     destruct a; try discriminate; reflexivity.
 Qed.
